@@ -122,8 +122,13 @@ def gen_recipe(rng, t=None, p=None, layout=None, unique=None):
         stmts = [tpl("F", 1, fields={"fwd": {"reference": "aa"}}), tpl("A", max(t, 1)),
                  tpl("P", max(p, 1), fields={"r": rref("A", unique)}), tpl("A", 1, nick="aa")]
     stmts.append(tpl(MARK))
+    reps = rng.choice([1, 1, 2, 3])
+    ks = [reps]
+    if rng.random() < 0.35:                     # a chain of continuation runs
+        ks = rng.choice([[1, 1], [1, 2], [2, 1], [1, 1, 1]])
+        reps = sum(ks)
     return {"kind": "recipe", "layout": layout, "t": t, "p": p, "unique": unique, "to": to,
-            "stmts": stmts, "reps": rng.choice([1, 1, 2, 3]), "bias": rng.choice(["lo", "hi", "mix", "mix"]),
+            "stmts": stmts, "reps": reps, "ks": ks, "bias": rng.choice(["lo", "hi", "mix", "mix"]),
             "raw": [rng.randint(0, 10 ** 6) for _ in range(400)]}
 
 
@@ -211,13 +216,23 @@ def run_recipe(case):
             return n - 1 if r % 3 else r % n
         return (0, n - 1, r % n)[r % 3]
     text = yaml.safe_dump(case["stmts"], sort_keys=False)
+    ks = case.get("ks") or [case["reps"]]
+    cont = None
     with injected_randbelow(chooser=chooser):
-        try:
-            generate(io.StringIO(text), {}, cap, app)
-        except BaseException as e:
-            if type(e).__name__ == "_CaseTimeout":
-                raise
-            return {"err": C.canon_exc(e), "msg": str(e)[:200], "rows": cap.rows}
+        for i, k in enumerate(ks):
+            app = SnowfakeryApplication(StoppingCriteria("__REPS__", k))
+            app.echo = lambda *a, **kw: None
+            out_cont = io.StringIO() if i < len(ks) - 1 else None
+            try:
+                generate(io.StringIO(text), {}, cap, app, generate_continuation_file=out_cont,
+                         continuation_file=io.StringIO(cont) if cont else None)
+            except BaseException as e:
+                if type(e).__name__ == "_CaseTimeout":
+                    raise
+                return {"err": C.canon_exc(e), "msg": str(e)[:200], "rows": cap.rows}
+            cont = out_cont.getvalue() if out_cont else None
+            if cont is not None:
+                cap.rows.append(["@run-boundary", []])     # not a row: the next run starts here
     return {"ok": cap.rows}
 
 
@@ -317,6 +332,9 @@ def oracle_recipe(case, obs):
         if t == MARK:
             this_iter = []
             continue
+        if t == "@run-boundary":
+            seen_unique = set()     # `unique` is scoped to one run: the context is not persisted
+            continue
         if "r" in d and t == "P":
             v = d["r"]
             nrefs += 1
@@ -340,12 +358,13 @@ def oracle_recipe(case, obs):
         if "id" in d and d["id"][0] == "int":
             written.append((t, d["id"][1], d.get("nk", [None, None])[1]))
             this_iter.append(written[-1])
-    if case["unique"] and case["layout"] in ("table",) and "ok" in obs and case["reps"] == 1:
+    single = case["reps"] == 1 and len(case.get("ks") or [1]) == 1
+    if case["unique"] and case["layout"] in ("table",) and "ok" in obs and single:
         if case["p"] > case["t"]:
             return (f"recipe[table]: {case['p']} unique references to {case['t']} targets all succeeded")
-    if case["unique"] and case["layout"] == "table" and "err" in obs and case["reps"] == 1 and case["p"] <= case["t"]:
+    if case["unique"] and case["layout"] == "table" and "err" in obs and single and case["p"] <= case["t"]:
         return f"recipe[table]: unique references failed although {case['t']} targets >= {case['p']} pickers: {obs.get('msg','')[:80]}"
-    if not case["unique"] and case["layout"] == "table" and "err" in obs and case["t"] >= 1:
+    if case["layout"] == "table" and "err" in obs and case["t"] >= 1 and (not case["unique"] or case["p"] <= case["t"]):
         return f"recipe[table]: random_reference failed although targets exist: {obs.get('msg','')[:80]}"
     return None
 
@@ -374,6 +393,7 @@ def stats(cases, obss):
     st = {"kinds": dict(Counter(c["kind"] for c in cases)),
           "layouts": dict(Counter(c.get("layout") for c in cases if c["kind"] == "recipe")),
           "unique": dict(Counter(str(c.get("unique")) for c in cases if c["kind"] == "recipe")),
+          "histories": dict(Counter("+".join(map(str, c.get("ks") or [c["reps"]])) for c in cases if c["kind"] == "recipe")),
           "script_ops": dict(Counter(o[0] for c in cases if c["kind"] == "script" for o in c["ops"])),
           "script_outcomes": dict(Counter(o[0] if o[0] != "err" else "err:" + o[1]
                                           for ob in obss if isinstance(ob, dict) and "obs" in ob for o in ob["obs"])),
